@@ -52,8 +52,10 @@ def try_merge(I, st, env, results, ignore_env=()):
             if oid.startswith('const:') and oid not in st.maps:
                 st.maps[oid] = items            # read-only module table, built on first use
                 st.cls[oid] = 'dict'
+    rets = [oc for (_s, _e, oc) in results]
+    all_ret = all(oc is not None and oc[0] == 'ret' and is_data(oc[1]) for oc in rets)
     for (s2, e2, oc) in results:
-        if oc is not None:
+        if oc is not None and not all_ret:
             return None
         if s2.n != st.n or s2.flags != st.flags or s2.maps != st.maps or s2.seqs != st.seqs \
                 or len(s2.cls) != len(st.cls):
@@ -114,6 +116,12 @@ def try_merge(I, st, env, results, ignore_env=()):
             val = val.alts[0][1]
         env[k] = val
     I.stats['merges'] = I.stats.get('merges', 0) + 1
+    if all_ret:
+        alts = [(d, oc[1]) for d, oc in zip(deltas, rets)]
+        val = Choice(_merge_alts(alts))
+        if len(val.alts) == 1 and not val.alts[0][0]:
+            val = val.alts[0][1]
+        return (st, env, ('ret', val))
     return (st, env, None)
 
 
